@@ -306,6 +306,7 @@ MUTANTS = [
     M("find-all-nodes-default-false", _T, "    def find_all_nodes(\n        self, symbol: NonTerminal, exclude_read_only: bool = True\n    )", "    def find_all_nodes(\n        self, symbol: NonTerminal, exclude_read_only: bool = False\n    )", "R16-e"),
 ]
 TWINS = [
+    M("twin-repair-copy-renamed", "src/fandango/constraints/comparison.py", "source_copy", "copy_of_source", None, count=3),
     M("twin-guard-with-hoisted-lookup", "src/fandango/language/tree.py", "        if (\n            current_path in path_to_replacement\n            and self.symbol == path_to_replacement[current_path].symbol\n            and not self.read_only\n        ):\n            new_subtree = path_to_replacement[current_path].deepcopy(\n", "        replacement = path_to_replacement.get(current_path)\n        if (\n            replacement is not None\n            and replacement.symbol == self.symbol\n            and not self.read_only\n        ):\n            new_subtree = replacement.deepcopy(\n", None),
     M("twin-repair-skips-generator-targets", "src/fandango/constraints/comparison.py", "        symbol = self._target.symbol\n        assert isinstance(symbol, NonTerminal)\n",
       "        symbol = self._target.symbol\n        assert isinstance(symbol, NonTerminal)\n        if symbol in grammar.generators:\n            return []\n", None),
